@@ -62,7 +62,7 @@ fn observe(src: &str, input: &V, resolves: &HashMap<u64, V>) -> Obs {
     Obs { tree, out: [o1, o2], logs: [l1, l2], detail: [d1, d2] }
 }
 
-fn strip_effects(t: &Tree) -> Tree {
+pub fn strip_effects(t: &Tree) -> Tree {
     match t {
         Tree::Leaf(..) => t.clone(),
         // a block written after a value hangs below that value node
@@ -79,7 +79,7 @@ fn strip_effects(t: &Tree) -> Tree {
 
 /// one shape for a block written after a value: `v [b]` hangs the block below the value node,
 /// `(v) [b]` puts it inside the group; both become SideEffect(v, b) beside / around the group
-fn norm_effects(t: &Tree) -> Tree {
+pub fn norm_effects(t: &Tree) -> Tree {
     match t {
         Tree::Leaf(..) => t.clone(),
         Tree::Un(d, x, a) if d != "SideEffect" && matches!(&**a, Tree::Un(e, ..) if e == "SideEffect") => match &**a {
